@@ -181,6 +181,17 @@ PROPS = {
         trust=GHOST_FS_TRUST,
         design_ref="DESIGN.md §5 C02",
     ),
+    "C04": dict(
+        kani=[],
+        verus=["partition_filters", "run_dedupe_defaults", "was_modified_step"],
+        prefixes=["C04.", "C02.partition_filters.only_regular", "C02.partition_filters.files_of_another_length",
+                  "C02.partition_filters.group_skipped", "C02.partition_filters.no_staleness"],
+        category="proof",
+        trust=["A1 verifiers",
+               "dedupe::was_modified (chrono conversions) is an uninterpreted predicate; FileMetadata::is_file/len return the file's current state",
+               "that the report's timestamp was taken before `group` started reading (caller history) is NOT covered"],
+        design_ref="DESIGN.md §5 C04",
+    ),
     "C08": dict(
         kani=["c08_subgroup_keep_drop_bounded", "c08_priority_least_nested_bounded", "c08_priority_most_nested_bounded",
               "c08_priority_top_bottom_bounded", "c08_path_should_keep_bounded", "c08_path_may_drop_bounded"],
